@@ -22,6 +22,11 @@ CHECKS = {
           "Generated search over endpoint configurations x delivery schedules (thousands per run) with an independent statement of compatibility; the 8x11 verdict matrix is enumerated completely for ZMTP/3.x, ZMTP/2.0 and inproc.",
           "Sans-IO: the driver models the link and EOF; pairing table per RFC 28-31/libzmq; known finding: inproc pairing table is narrower (suite pins DEALER-DEALER invalid).",
           "DESIGN.md §2 C05"),
+  "C06": ("exploration",
+          "property-based testing (proptest): grammar-based attacker streams against engines configured with PLAIN/CURVE/NOISE_XX, judged by a reference automaton of legitimate completions; positive controls; raw attacker peers against real sockets with a sentinel from an honest peer",
+          "Generated search: tens of thousands of attacker streams per run (45% reaching the configured mechanism's own token parser, 30% ZMTP/2.0 greetings) x random segmentation; the oracle is 'no HandshakeComplete and no DeliverMessage, ever' except for the streams the reference automaton calls legitimate; stack-level spot checks on tcp/ipc in both roles.",
+          "The attacker performs no real CURVE/Noise cryptography and never has the configured password; a PLAIN client has no secret to verify (WELCOME+READY is legitimate). Panics are C07's subject and only counted here.",
+          "DESIGN.md §2 C06"),
 }
 
 NOT_YET = {
